@@ -168,7 +168,11 @@ class Session:
     # ---- connect
     def connect(self):
         I = self.I
-        if self.password is None:
+        entry = getattr(self, 'connect_entry', None)
+        if entry == 'opt':
+            pw = none() if self.password is None else some(str_ref(self.password))
+            fut = I.call_repo('mpd_client::client::Client::connect_with_password_opt::<Transport>', [self.t, pw])
+        elif self.password is None:
             fut = I.call_repo('mpd_client::client::Client::connect::<Transport>', [self.t])
         else:
             fut = I.call_repo('mpd_client::client::Client::connect_with_password::<Transport>', [self.t, str_ref(self.password)])
